@@ -12,6 +12,41 @@ CLAIMED = {
                 text="For every partition of messages::parse (all payload lengths as intervals, all selector values, std+none quick, "
                      "+alloc thorough) every public field's extracted provenance term is compared with the bit range ITU-R M.1371-5 "
                      "assigns to it. Decides field positions/widths/identity for all inputs; value decoders are C10-C16."),
+    "C09": dict(cat="translation_validation", ref="5/C09",
+                tech="abstract interpretation of MIR: dispatch partition of messages::parse over all 64 type values vs. table",
+                text="The switch structure of messages::parse is partitioned over all 64 values of the first six payload bits and all "
+                     "payload lengths; each supported value must reach only the named AisMessage variant/struct with message_type = "
+                     "bits[0,6), every other value only Err. Exhaustive over the type domain, symbolic in everything else."),
+    "C10": dict(cat="translation_validation", ref="5/C10",
+                tech="value-set partition of leaf decoders' MIR (LeafMap) + provenance terms vs. scale table",
+                text="For every coordinate/speed/course/draught field in every partition: the source is the two's-complement (coordinates) "
+                     "or unsigned field of the ITU width, and the decoder's result expression, recovered from MIR over the field's whole "
+                     "value range, is raw*scale with the exact rational scale, <=1 cast and <=2 float operations. IEEE-754 itself is trusted."),
+    "C11": dict(cat="translation_validation", ref="5/C11",
+                tech="value-set partition of leaf decoders' MIR at the call site's range vs. sentinel table",
+                text="For every optional numeric field the decoder's None class, computed over the full value range the call site supplies, "
+                     "must be exactly {sentinel} and every other raw value must be Some; a sentinel at the wrong resolution shows as an empty class."),
+    "C12": dict(cat="translation_validation", ref="5/C12",
+                tech="value-set partition of enumeration decoders' MIR over all 2^w codes vs. tables; symbolic composition for the reverse map",
+                text="Complete code->variant tables of all enumeration decoders are recovered from their MIR (every code of every width, 256 for "
+                     "ship type) and compared with tables keyed by public variant names; u8::from(ShipType) is composed with ShipType::parse."),
+    "C13": dict(cat="translation_validation", ref="5/C13",
+                tech="text provenance terms (bit groups, trim chain) + character-table LeafMap vs. 6-bit ASCII table",
+                text="Every text field must be trim_end(trim_end_matches('@', trim_start(utf8(groups)))) over consecutive 6-bit groups mapped by a "
+                     "decoder whose table over 0..63 is the 6-bit ASCII table and that cannot fail. str::trim* semantics are trusted."),
+    "C14": dict(cat="translation_validation", ref="5/C14 + Appendix D",
+                tech="length partition (intervals of payload bytes) of messages::parse vs. length oracle",
+                text="Outcomes of messages::parse as a function of the payload length (interval partition, last interval unbounded) are compared "
+                     "with the length oracle: Err below the mandatory size, exact signatures at every legal length (exact and armored), "
+                     "element-count formulas and provenance inside [0,8N) at every length."),
+    "C15": dict(cat="proof", ref="5/C15",
+                tech="provenance of the copied slice (Rest(payload, hdr)) + byte-alignment of the bit cursor from the read trace",
+                text="In every Ok partition of types 6/8/17 the data field is the whole payload remainder from the ITU header size and the reads "
+                     "before the copy tile [0, 8*hdr) exactly (cursor byte aligned); no-alloc adds only Err beyond 119 bytes."),
+    "C16": dict(cat="translation_validation", ref="5/C16",
+                tech="provenance terms of the radio_status sub-structure per (type, selector, time-out) partition vs. ITU comm-state tables",
+                text="For types 1,2,3,4,9,11,18 the scheme, the 19-bit state position, SOTDMA/ITDMA field layout and the time-out -> sub-message "
+                     "map are compared with ITU-R M.1371-5 for all 8 time-out values and both selector values. Known finding K1 (type 9)."),
 }
 
 NA = {}
